@@ -186,6 +186,7 @@ def run_script(n, inputs, script, retry=True, extra=0, return_results=True, refu
             ret = pool.run(iter(list(inputs)), worker_extra_pending_inputs=extra, return_results=return_results,
                            enqueue_fn=enqueue_fn if refused else None)
             res['outcome'] = 'returned'
+            res['none'] = ret is None          # run() returns None at once when the pool has no usable worker
             res['ret'] = list(ret) if ret is not None else []
         except P.PoolError as e:
             res['outcome'] = 'poolerror'
@@ -235,3 +236,28 @@ def parse_model(line):
     enq = [tuple(map(int, x.split(':'))) for x in d.get('enq', '').split(',') if x]
     closed = [int(x) for x in d.get('closed', '').split(',') if x]
     return d['outcome'], ret, enq, closed
+
+
+def run_chain(n, runs, retry=True, extra=0):
+    """consecutive run() calls on ONE pool of fake workers; runs = [(inputs, pre, script), ...]. Returns the list of result dicts."""
+    env = pool = None
+    outs = []
+    for inputs, pre, script in runs:
+        if env is None:
+            r = run_script(n, inputs, script, retry=retry, extra=extra, pre=pre)
+            env, pool = r['env'], r['pool']
+        else:
+            env.script, env.pos, env.enq_ok, env.enq_try, env.fn_calls = list(script), 0, [], [], 0
+            r = run_script(n, inputs, script, retry=retry, extra=extra, pool=pool, env=env, pre=pre)
+        outs.append(dict(r))
+        if r['outcome'] not in ('returned', 'poolerror'):
+            break
+    return outs
+
+
+def chain_line(n, runs, retry=True, extra=0):
+    first = runs[0]
+    line = model_line(n, first[0], first[2], retry=retry, extra=extra, pre=first[1])
+    for inputs, pre, script in runs[1:]:
+        line += ' || ' + (','.join(map(str, inputs)) or '-') + ' ' + ' '.join(script_tokens(pre) + ['|'] + script_tokens(script))
+    return line
